@@ -908,6 +908,26 @@ func (c *SpecCtx) evalCall(e *ECall) Val {
 		a := c.eval(e.Args[0])
 		b := c.eval(e.Args[1])
 		return Val{T: fmt.Sprintf("(and (= %s %s) (= %s %s) (= %s %s) (= %s %s))", sArr(a.T), sArr(b.T), sOff(a.T), sOff(b.T), sLen(a.T), sLen(b.T), sFld(a.T), sFld(b.T)), Typ: boolT}
+	case "lower":
+		sv := c.eval(e.Args[0])
+		c.enc().trusted["library contract: strings.ToLower: deterministic function of its arguments, otherwise unconstrained"] = true
+		return Val{T: enc.uf("ext.strings.ToLower.0", []string{"Str"}, "Str", sv.T), Typ: types.Typ[types.String]}
+	case "trimsuffix":
+		sv := c.eval(e.Args[0])
+		tv := c.eval(e.Args[1])
+		c.enc().trusted["library contract: strings.TrimSuffix: deterministic function of its arguments, otherwise unconstrained"] = true
+		return Val{T: enc.uf("ext.strings.TrimSuffix.0", []string{"Str", "Str"}, "Str", sv.T, tv.T), Typ: types.Typ[types.String]}
+	case "same":
+		// same(a, b): identical values (for floats: identical bit patterns up to NaN payloads, unlike ==)
+		a := c.eval(e.Args[0])
+		b := c.eval(e.Args[1])
+		if a.isConst() {
+			a = c.materialize(a, b.Typ)
+		}
+		if b.isConst() {
+			b = c.materialize(b, a.Typ)
+		}
+		return Val{T: fmt.Sprintf("(= %s %s)", a.T, b.T), Typ: boolT}
 	case "same_array":
 		// same_array(a, b): the two slices share their backing array
 		a := c.eval(e.Args[0])
